@@ -84,7 +84,7 @@ BINPREC = {
 }
 
 FN1 = {
-    "has_value": "F_has_value", "issmall": "F_issmall",
+    "has_value": "F_has_value",
     "std::fabs": "F_fabs", "std::floor": "F_floor", "std::sqrt": "F_sqrt",
     "std::isfinite": "F_isfinite", "std::log": "F_log", "std::exp": "F_exp",
     "std::sin": "F_sin", "std::cos": "F_cos",
@@ -96,6 +96,7 @@ FN2 = {
 
 I32_MAX = 2147483647
 I32_MIN = -2147483648
+HOLE = "@@HOLE@@"
 
 
 def dbl_bits(x):
@@ -107,13 +108,16 @@ class Parser:
     helpers: names of the one-line helper functions verified in the header
     ('base' -> F_get_double, 'cast'/'integer::cast' -> F_get_int)."""
 
-    def __init__(self, toks, base_t, helpers, param_names):
+    def __init__(self, toks, base_t, helpers, param_names, inline=None, hole=None, tparam=None):
         self.t = toks
         self.i = 0
         self.base_t = base_t
         self.helpers = helpers
         self.params = param_names     # names of the symbol_params parameter
         self.locals = []              # declared locals in order
+        self.inline = inline or {}    # helper name -> expression template containing HOLE once
+        self.hole = hole              # when parsing a helper: the name of its by-value parameter
+        self.tparam = tparam          # when parsing a template helper: (name of the type parameter, its ty)
 
     # -- token helpers
     def peek(self, k=0):
@@ -144,6 +148,8 @@ class Parser:
         return self.type_of_name(name)
 
     def type_of_name(self, name):
+        if self.tparam and name == self.tparam[0]:
+            return self.tparam[1]
         if name == "base_t":
             return "TI32" if self.base_t == "int" else "TF64"
         table = {"int": "TI32", "D_INT": "TI32", "std::intmax_t": "TI64",
@@ -269,6 +275,9 @@ class Parser:
         if v in self.locals and self.peek(1)[1] not in ("::", "("):
             self.next()
             return "(ELocal %d)" % self.locals.index(v)
+        if self.hole and v == self.hole and self.peek(1)[1] not in ("::", "(", "[", "."):
+            self.next()
+            return HOLE
         # qualified name
         parts = [self.next()[1]]
         targ = None
@@ -305,6 +314,17 @@ class Parser:
             if f is None:
                 raise OutsideSubset("std::get<%s>" % targ)
             return "(ECall1 %s %s)" % (f, a[0])
+        if name in self.inline:
+            a = self.parse_args()
+            if len(a) != 1:
+                raise OutsideSubset("%s arity" % name)
+            return self.inline[name].replace(HOLE, a[0])
+        if name == "std::abs" and self.tparam and self.tparam[1] == "TF64":
+            # std::abs on the double instantiation of a template helper is fabs
+            a = self.parse_args()
+            if len(a) != 1:
+                raise OutsideSubset("std::abs arity")
+            return "(ECall1 F_fabs %s)" % a[0]
         if name in self.helpers:
             a = self.parse_args()
             if len(a) != 1:
@@ -376,8 +396,9 @@ class Parser:
                     self.expect(";")
                 stmts.append("SIfRet %s %s %s" % (c, th, el))
                 continue
-            if v == "const":
-                self.next()
+            if v in ("const", "static", "constexpr"):
+                while self.peek()[1] in ("const", "static", "constexpr"):
+                    self.next()
                 t = self.parse_type_name()
                 while True:
                     kk, name = self.next()
@@ -438,7 +459,81 @@ def classes(src):
         yield m.group(1), m.group(2), src[i:j]
 
 
-def translate_header(path, prefix):
+
+# ------------------------------------------------------------ inline helpers
+# One-statement-return helper functions taking their only parameter by value
+# or const reference (real::base, integer::cast, issmall<T>) are translated
+# with the same parser and INLINED at their call sites: the helper's
+# parameter must occur exactly once in the returned expression (so the
+# argument is still evaluated exactly once) and its locals must be constant
+# expressions (substituted).  Anything else is outside the subset.
+HELPER_RE = re.compile(r"inline\s+(\w+)\s+(\w+)\s*\(\s*const\s+value_t\s*&\s*(\w+)\s*\)\s*(?=\{)")
+TEMPLATE_HELPER_RE = r"template\s*<\s*class\s+(\w+)\s*>\s*(\w+)\s+%s\s*\(\s*(\w+)\s+(\w+)\s*\)\s*(?=\{)"
+
+
+def _inline_template(text, base_t, hole, tparam, ret_ty):
+    """helper body text -> expression template with HOLE"""
+    p = Parser(tokenize(text), base_t, {}, [], hole=hole, tparam=tparam)
+    stmts = p.parse_body()
+    consts = {}
+    result = None
+    for k, st in enumerate(stmts):
+        if st.startswith("SDecl "):
+            t, e = st[len("SDecl "):].split(" ", 1)
+            if HOLE in e or "EArg" in e or "EParam" in e:
+                raise OutsideSubset("helper local is not a constant expression")
+            for i, c in consts.items():
+                e = e.replace("(ELocal %d)" % i, c)
+            consts[len(consts)] = e if t == "TAuto" else "(ECast %s %s)" % (t, e)
+        elif st.startswith("SReturn ") and k == len(stmts) - 1:
+            result = st[len("SReturn "):]
+        else:
+            raise OutsideSubset("helper statement %s" % st.split(" ")[0])
+    if result is None:
+        raise OutsideSubset("helper without a final return")
+    for i, c in consts.items():
+        result = result.replace("(ELocal %d)" % i, c)
+    if "ELocal" in result:
+        raise OutsideSubset("helper local escapes")
+    if result.count(HOLE) != 1:
+        raise OutsideSubset("helper uses its parameter %d times" % result.count(HOLE))
+    # conversion of the returned expression to the declared return type, left out
+    # where the expression already has exactly that type
+    head = result[1:].split(" ")
+    same = (ret_ty == "TBool" and head[0] == "EBin" and head[1] in ("BLt", "BGt", "BLe", "BGe", "BEq", "BNe", "BAnd", "BOr")) \
+        or (ret_ty == "TF64" and head[:2] == ["ECall1", "F_get_double"]) \
+        or (ret_ty == "TI32" and head[:2] == ["ECall1", "F_get_int"])
+    return result if same else "(ECast %s %s)" % (ret_ty, result)
+
+
+def header_helpers(src, base_t):
+    """{name: template} for the `inline base_t name(const value_t &v) {...}` helpers of a primitive header"""
+    out = {}
+    for m in HELPER_RE.finditer(src):
+        ret, name, par = m.group(1), m.group(2), m.group(3)
+        i = m.end()
+        j = match_brace(src, i)
+        dummy = Parser([], base_t, {}, [])
+        out[name] = _inline_template(src[i + 1:j - 1], base_t, par, None, dummy.type_of_name(ret))
+    return out
+
+
+def template_helper(path, name, ty="TF64"):
+    """template<class T> R name(T v) {...} of utility.h instantiated at T = double"""
+    src = strip_comments(open(path).read())
+    m = re.search(TEMPLATE_HELPER_RE % re.escape(name), src)
+    if not m:
+        raise OutsideSubset("%s: template helper not found" % name)
+    tname, ret, ptype, par = m.groups()
+    if ptype != tname:
+        raise OutsideSubset("%s: parameter type %s" % (name, ptype))
+    i = m.end()
+    j = match_brace(src, i)
+    dummy = Parser([], "double", {}, [], tparam=(tname, ty))
+    return _inline_template(src[i + 1:j - 1], "double", par, (tname, ty), dummy.type_of_name(ret))
+
+
+def translate_header(path, prefix, utility_h=None):
     """returns (list of dict per class, list of problems)"""
     raw = open(path).read()
     src = strip_comments(raw)
@@ -447,15 +542,21 @@ def translate_header(path, prefix):
     if m:
         base_t = {"D_INT": "int", "D_DOUBLE": "double"}.get(m.group(1))
     helpers = {}
-    # one-line helper accessors, verified textually
-    if re.search(r"inline\s+base_t\s+base\s*\(\s*const\s+value_t\s*&\s*v\s*\)\s*\{\s*return\s+std::get<base_t>\(v\);\s*\}", src):
-        helpers["base"] = "F_get_int" if base_t == "int" else "F_get_double"
-    if re.search(r"inline\s+base_t\s+cast\s*\(\s*const\s+value_t\s*&\s*v\s*\)\s*\{\s*return\s+std::get<base_t>\(v\);\s*\}", src):
-        f = "F_get_int" if base_t == "int" else "F_get_double"
-        helpers["cast"] = f
-        helpers["integer::cast"] = f
     out = []
     problems = []
+    # helper accessors of the header (base / cast) and issmall<double> of utility.h: parsed and inlined
+    inline = {}
+    try:
+        inline = header_helpers(src, base_t)
+    except (OutsideSubset, ValueError) as e:
+        problems.append("helper of %s: outside subset: %s" % (path.split("/")[-1], e))
+    if "cast" in inline:
+        inline["integer::cast"] = inline["cast"]
+    if utility_h and re.search(r"\bissmall\s*\(", src):
+        try:
+            inline["issmall"] = template_helper(utility_h, "issmall")
+        except (OutsideSubset, OSError, ValueError) as e:
+            problems.append("issmall of utility.h: outside subset: %s" % e)
     for cname, kind, body in classes(src):
         em = EVAL_RE.search(body)
         info = {"class": cname, "kind": kind, "ident": "%s_%s" % (prefix, cname)}
@@ -474,7 +575,7 @@ def translate_header(path, prefix):
         text = body[i + 1:j - 1]
         params = [em.group(1)] if em.group(1) else []
         try:
-            p = Parser(tokenize(text), base_t, helpers, params)
+            p = Parser(tokenize(text), base_t, helpers, params, inline=inline)
             info["stmts"] = p.parse_body()
             info["source"] = " ".join(text.split())
         except OutsideSubset as e:
